@@ -381,7 +381,9 @@ func (pc *PartitionContext) AddApplication(app *objects.Application) error {
 	// - make sure the taskgroup request fits in the maximum set for the queue hierarchy
 	// - task groups should only be used in FIFO queues
 	// if the check fails remove the app from the queue again
-	if placeHolder := app.GetPlaceholderAsk(); !resources.IsZero(placeHolder) {
+	// an application that is force created (recovery) is accepted regardless of the current queue settings: its
+	// placeholders could be running already
+	if placeHolder := app.GetPlaceholderAsk(); !resources.IsZero(placeHolder) && !app.IsCreateForced() {
 		// check the queue sorting
 		if !queue.SupportTaskGroup() {
 			return fmt.Errorf("queue %s cannot run application %s with task group request: unsupported sort type", queueName, appID)
